@@ -10,7 +10,9 @@
 //       grid=localp|semilocalp|localp0|sequence|global  dims outs depth order
 //       cand=surplus|aniso  tol crit(classic|parents|direction|fds|stable) limit(level limit per dimension, -1 = none)
 //       jobs batch budget   guess(0|1)  preload(0|1: load the initial grid points through loadNeededValues first)
-//       lat=0|1|2 (model latency none / skewed / random)  yield=0|1|2 (hook sink: none / yield / yield+sleep)  seed
+//       lat=0|1|2|3 (model latency none / skewed / random / 3 = the "running job drops out of the candidates" scenario: a spike of
+//                    1000 at x0 = 0.5 and a very slow call at x0 = -0.5, slow at x0 = 1: while -0.5 is being computed the spike is loaded,
+//                    the normalisation jumps and -0.5 stops being a candidate; the run must still wait for it and load it)  yield=0|1|2 (hook sink: none / yield / yield+sleep)  seed
 //       overwrite(0|1) vecmodel(0|1)   (lnv only)
 //
 // Output (stdout, written single-threaded after the run; doubles as %a):
@@ -140,9 +142,18 @@ static void model_core(const double *x, size_t n, double *y, size_t thread_id) {
         if ((q & 3) == 0) std::this_thread::sleep_for(std::chrono::microseconds((q >> 8) % 400));
         else if ((q & 3) == 1) std::this_thread::yield();
     }
+    if (g_lat == 3) {
+        for (size_t i = 0; i < n; i++) {
+            if (std::fabs(x[i * g_dims] + 0.5) < 1e-9) std::this_thread::sleep_for(std::chrono::milliseconds(600));
+            if (std::fabs(x[i * g_dims] - 1.0) < 1e-9) std::this_thread::sleep_for(std::chrono::milliseconds(120));
+        }
+    }
     for (size_t i = 0; i < n; i++)
-        for (size_t o = 0; o < g_outs; o++)
-            y[i * g_outs + o] = fmodel(x + i * g_dims, g_dims, o) + EPS * (double) (s0 + i);
+        for (size_t o = 0; o < g_outs; o++) {
+            double v = fmodel(x + i * g_dims, g_dims, o);
+            if (g_lat == 3) { double t = x[i * g_dims]; v = (std::fabs(t - 0.5) < 1e-9) ? 1000.0 : ((t < 0.0) ? t * t : 0.5 * t * t); }
+            y[i * g_outs + o] = v + EPS * (double) (s0 + i);
+        }
     r.y.assign(y, y + n * g_outs);
     r.ticket2 = tick();
     r.y.push_back((double) s0); // last entry: first serial number of the call
